@@ -55,6 +55,24 @@ def twin_battery(fst, root):
     return B.battery(t, reverse=True)  # opposite query order: answers must not depend on earlier read-only queries
 
 
+def forced(op, root):
+    """par(force=True) / unpar() on a node that cannot take the request is documented misuse: if it left source != tree, skip."""
+    if op.get('op') in ('par', 'unpar'):
+        from ..fstnav import live_vs_parse
+        return bool(live_vs_parse(root, 'Module'))
+    return False
+
+
+def unparsable(root):
+    """The edit left source Python rejects (a C01 violation, or par()/unpar() misuse): queries have no reference then.
+    A tree whose source parses but whose positions / structure differ from it IS judged here: those are wrong answers."""
+    try:
+        ast.parse(root.src)
+        return False
+    except (SyntaxError, ValueError):
+        return True
+
+
 def check(fst, root, src0, hist, cid, variant, res):
     rep = {'src': src0, 'hist': hist, 'variant': variant}
     res.traces += 1
@@ -93,8 +111,8 @@ def run_shard(desc, tier, res):
                 except Exception:  # noqa: BLE001
                     continue
                 from ..fstnav import live_vs_parse
-                if live_vs_parse(root, 'Module'):
-                    continue  # the edit itself left source != tree (unpar()/par(force) misuse, or a C01 defect): C01's business
+                if unparsable(root) or forced(op, root):
+                    continue
                 if check(fst, root, src0, [op], cid, g, res):
                     res.nontriv(cid)
         return
@@ -121,7 +139,7 @@ def run_shard(desc, tier, res):
                     E.apply(fst, root, op)
                 except Exception:  # noqa: BLE001
                     continue
-                if live_vs_parse(root, 'Module'):
+                if unparsable(root) or forced(op, root):
                     continue
                 if check(fst, root, src0, [op], cid, 'only:' + O.path_str(tp), res):
                     res.nontriv(cid)
@@ -134,8 +152,8 @@ def run_shard(desc, tier, res):
 
         def on_state(root, pre, hist, cid, c2, variant=variant):
             from ..fstnav import live_vs_parse
-            if live_vs_parse(root, 'Module'):
-                return False  # source != tree after the edit itself (unpar()/par(force) misuse or a C01 defect): C01's business
+            if unparsable(root) or forced(hist[-1], root):
+                return False
             ok = check(fst, root, src0, hist, cid + f'/pre={variant}', variant, res)
             if ok and c2[2] != pre[2]:
                 res.nontriv(c2[2], c2[3], variant)
